@@ -139,6 +139,20 @@ func (ev *Eval) resolveType(te TypeExpr) VT {
 		a := ev.resolveType(te.Args[0])
 		return goVT(types.NewSlice(a.Go))
 	}
+	if strings.HasPrefix(te.Name, "typeof(") && strings.HasSuffix(te.Name, ")") {
+		if v, ok := ev.vars[te.Name[7:len(te.Name)-1]]; ok {
+			return v.Ty
+		}
+		if ev.fn != nil {
+			for _, p := range ev.fn.Params {
+				if p.Name() == te.Name[7:len(te.Name)-1] {
+					return goVT(ev.ts.apply(p.Type()))
+				}
+			}
+		}
+		ev.errorf("typeof: unknown name in %s", te.Name)
+		return vtInt
+	}
 	switch te.Name {
 	case "int":
 		return vtInt
@@ -351,7 +365,19 @@ func (ev *Eval) ident(name string) TV {
 			if tps := f.TypeParams(); tps != nil {
 				for i := 0; i < tps.Len(); i++ {
 					if tps.At(i).Obj().Name() == name[5:] {
-						lo, hi := ev.vc().tpBounds(tps.At(i))
+						lo, hi := "", ""
+						switch at := types.Unalias(ev.ts.apply(tps.At(i))).(type) {
+						case *types.TypeParam:
+							lo, hi = ev.vc().tpBounds(at)
+						default:
+							if b, ok := at.Underlying().(*types.Basic); ok {
+								lo, hi = intRange(b)
+							}
+						}
+						if lo == "" {
+							ev.errorf("no integer bounds for %s", name)
+							return TV{T: "0", Ty: vtInt}
+						}
 						if strings.HasPrefix(name, "Tmin_") {
 							return TV{T: lo, Ty: vtInt}
 						}
@@ -421,7 +447,12 @@ func (ev *Eval) binop(e EBin) TV {
 	case "==>":
 		return TV{T: sImp(ev.eval(e.X).T, ev.eval(e.Y).T), Ty: vtBool}
 	case "<==>":
-		return TV{T: sEq(ev.eval(e.X).T, ev.eval(e.Y).T), Ty: vtBool}
+		a, b := ev.eval(e.X).T, ev.eval(e.Y).T
+		if strings.Contains(a, "(forall ") || strings.Contains(a, "(exists ") || strings.Contains(b, "(forall ") || strings.Contains(b, "(exists ") {
+			// keep every quantifier at a definite polarity
+			return TV{T: sAnd(sImp(a, b), sImp(b, a)), Ty: vtBool}
+		}
+		return TV{T: sEq(a, b), Ty: vtBool}
 	case "in":
 		x := ev.rval(ev.eval(e.X))
 		y := ev.eval(e.Y)
@@ -575,7 +606,7 @@ func (ev *Eval) index(x, i TV) TV {
 	switch u := x.Ty.Go.Underlying().(type) {
 	case *types.Slice:
 		x = ev.rval(x)
-		at := "(+ (soff " + x.T + ") " + i.T + ")"
+		at := "(ix (soff " + x.T + ") " + i.T + ")"
 		if isStructType(u.Elem()) {
 			return TV{T: "(sub (sarr " + x.T + ") " + at + ")", Ty: goVT(u.Elem()), Addr: true}
 		}
@@ -638,6 +669,20 @@ func (ev *Eval) call(e ECall) TV {
 		ev.errorf("len of %s", x.Ty)
 	case "cap":
 		return TV{T: "(scap " + arg(0).T + ")", Ty: vtInt}
+	case "pre":
+		// value of a loop-carried variable at the head of the iteration just executed (ghost updates only)
+		if id, ok := e.Args[0].(EIdent); ok && ev.ex.ghostLoop != nil {
+			for l := ev.ex.ghostLoop; l != nil; l = l.Parent {
+				for _, ins := range l.Header.Instrs {
+					if phi, ok := ins.(*ssa.Phi); ok && phi.Comment == id.Name {
+						v := ev.ex.vals[phi]
+						return TV{T: v.T, Ty: goVT(ev.ex.typ(phi.Type()))}
+					}
+				}
+			}
+		}
+		ev.errorf("pre(): no loop-carried variable of that name")
+		return TV{T: "0", Ty: vtInt}
 	case "sarr":
 		return TV{T: "(sarr " + arg(0).T + ")", Ty: vtInt}
 	case "soff":
@@ -1001,6 +1046,23 @@ func (ex *Exec) resolveLocal(name string, pt *progPoint, st *State) (TV, bool) {
 			case *ssa.Alloc:
 				if x.Comment == name {
 					cands = append(cands, cand{v: x, block: b, idx: i, alloc: true})
+				}
+			}
+		}
+	}
+	if name == "$visited" {
+		// keys already produced by the map iteration of the enclosing loop
+		for _, l := range ex.loops {
+			if l.Header == pt.block || l.Blocks[pt.block] {
+				for _, ins := range l.Header.Instrs {
+					if nx, ok := ins.(*ssa.Next); ok {
+						if rg, ok := nx.Iter.(*ssa.Range); ok {
+							if it := ex.rangeIters[rg]; it != nil && !it.isStr {
+								mk := ex.mapComps(it.mt)
+								return TV{T: ex.get(st, it.visKey, it.visSort), Ty: VT{Kind: "set", Args: []VT{goVT(mk.kt)}}}, true
+							}
+						}
+					}
 				}
 			}
 		}
